@@ -24,7 +24,7 @@ RULE = (
 )
 ASSUMPTIONS = [
     "Auto detects by a two-byte magic and has no swtpm branch: it is exercised on binary (first byte 0x80), pcapng and hex text starting with a hex pair (D-5)",
-    "Ethernet frames use loopback (all-zero) MAC addresses as in the repository's captures",
+    "Ethernet captures declare link type EN10MB and use all-zero (loopback) or arbitrary MAC addresses; raw-IP captures declare LINKTYPE_IPV4 (228, as the repository's captures) or LINKTYPE_RAW",
     "swtpm token sequences outside the documented layout (header without newline) are skipped and counted",
 ]
 
